@@ -22,7 +22,9 @@
                    object held by a finalizer (u_fin) as NotFound or with a UID
                    other than the one it has in the cluster (such a delivery would
                    be a lie of the status watcher: the API server accepts the DELETE
-                   of such an object, the object stays).  wf_b (Corr/CorrPipeline.v)
+                   of such an object, the object stays); every tracked live object has a
+                   kind the RESTMapper knows after a reset (a tracked custom resource in
+                   the cluster has its CRD in the cluster).  wf_b (Corr/CorrPipeline.v)
                    is the same predicate as a boolean (C01_WF_decide).
      kf_free sc c0 the run does not show the KNOWN FINDING C01-invns-apply-failed
                    (known_findings.json; reproduced on the implementation): the
@@ -237,6 +239,21 @@ Proof. repeat split; vm_compute; reflexivity. Qed.
 Example C01_WF_needed_no_foreign_uid_for_finalizer :
   nx_bad7 (fin_sc true true [mkS 2 SNotFound false 0%N 0%Z; mkS 1 SCurrent true 77%N 2%Z] WTimeout) fin_c0.
 Proof. repeat split; vm_compute; reflexivity. Qed.
+
+(* 8: a tracked, live, owned custom resource whose CRD is not in the cluster (impossible on a real API server).
+   The RESTMapper does not know its kind: the pruner skips the inventory entry without reading it
+   (GetPruneObjs, NoMatch), it gets no status, and the final inventory drops it although the object is live
+   and annotated.  Object 0 is the CRD, object 1 the custom resource; the apply set is empty.  With the CRD
+   object in the cluster the same scenario is well-formed (and object 1 is pruned). *)
+Example C01_WF_needed_tracked_kind_known :
+  let univ := [mkU KCrd None None; mkU KPlain None (Some 0)] in
+  let sc := mkSc univ None [] (nx_opts false true) (mkE [] [mkW [mkS 1 SNotFound false 0%N 0%Z] WTimeout] CNever None) in
+  let c0 := mkCl [nx_obj 1 5%N] (Some [1]) 9%N in
+  let c0' := mkCl [mkC 0 4%N ONone false [] false 1 None; nx_obj 1 5%N] (Some [1]) 9%N in
+  wf_crd_b sc c0 = false /\ wf_b sc c0' = true /\ nx_bad sc c0 /\
+  inv (out_final (run sc c0)) = Some [] /\ managed (out_final (run sc c0)) = [1] /\
+  mon_C01 sc c0' (run sc c0') = true.
+Proof. vm_compute. repeat split; reflexivity. Qed.
 
 Print Assumptions C01_no_orphans_partial.
 Print Assumptions C01_inventory_deleted_only_when_empty_partial.
